@@ -36,7 +36,7 @@ RULE = ('2-3 concurrent trash-put processes of one user, each trashing 1-3 entri
 ASSUMPTIONS = ['processes are single-threaded; every system call is atomic; only the order of calls of different processes varies',
                'in a fault-free run where all processes trash distinct existing entries no process may fail (attributed to C04 by its quantifier); '
                'a process that met an injected error may fail, the others may not, and the pair invariant holds for all']
-PROBES = ['same-path-given-to-several-puts', 'schedules', 'context-switches', 'switch-between-reserve-and-rename', 'both-created-trash-dir', 'eexist-retry', 'crowded-random-suffix',
+PROBES = ['one-put-of-several-same-named-entries', 'same-path-given-to-several-puts', 'schedules', 'context-switches', 'switch-between-reserve-and-rename', 'both-created-trash-dir', 'eexist-retry', 'crowded-random-suffix',
           'sequential-histories', 'over-100-same-name', 'orphan-dangling-symlink', 'orphan-dir', 'stray-info', 'uniform', 'pct', 'sweep', 'sweepfault', 'three-procs', 'cross-device-puts-next-to-decorated-names',
           'fault-in-one-process', 'fault-fired', 'faulted-process-reported-failure']
 TECHNIQUE = 'deterministic simulation of concurrent processes: baton-passing threads under a seeded scheduler (uniform / PCT / sweep), invariant on pairs after all exit'
@@ -74,9 +74,38 @@ def gen_xdev(rng):
             'sched': {}, 'note': {'state': 'xdev-decorated', 'names': names}}
 
 
+def gen_multiarg(rng):
+    """ONE trash-put given several same-named entries from different directories (trash-put */config), of mixed kinds - one of
+    them may be a symlink to another of them ('current' -> 'v1', a/config -> ../b/config): each is an entry of its own"""
+    L = G.make_layout(rng, nvol=0, xdg=rng.choice(['unset', 'set']), home_mode='root', uid=1000)
+    steps = L['steps']
+    home, uid, env = L['home'], L['uid'], dict(L['env'])
+    nm = rng.choice(['foo', 'config', 'a b', 'notes.trashinfo'])
+    n = rng.choice([2, 2, 3])
+    paths = []
+    for i in range(n):
+        d = home + '/p%d' % i
+        steps.append(['d', d, 0o755])
+        G.make_entry(rng, d + '/' + nm, rng.choice(['file', 'file', 'dir', 'link_dangling', 'empty']), steps, home + '/aux')
+        paths.append(d + '/' + nm)
+    linked = rng.random() < 0.6
+    if linked:
+        i, j = rng.sample(range(n), 2)
+        steps[:] = [s_ for s_ in steps if not (s_[1] == paths[i] or s_[1].startswith(paths[i] + '/'))]
+        steps.append(['l', paths[i], rng.choice(['../p%d/%s' % (j, nm), paths[j]])])
+    rng.shuffle(paths)
+    cwd = rng.choice([home, home + '/p0', '/'])
+    args = [p if rng.random() < 0.5 else posixpath.relpath(p, cwd) for p in paths]
+    procs = [{'argv': ['trash-put'] + rng.choice([[], [], ['-v'], ['-f']]) + ['--'] + args, 'env': env, 'cwd': cwd, 'uid': uid}]
+    return {'world': {'mounts': L['mounts'], 'steps': steps}, 'dirsalt': rng.randrange(1 << 30), 'mode': 'seq', 'procs': procs,
+            'sched': {}, 'note': {'state': 'multiarg', 'names': [nm], 'linked': linked}}
+
+
 def gen(rng):
     if rng.random() < 0.08:
         return gen_xdev(rng)
+    if rng.random() < 0.06:
+        return gen_multiarg(rng)
     mode = rng.choice(['conc', 'conc', 'conc', 'conc', 'crowded', 'seq'])
     L = G.make_layout(rng, nvol=0, xdg=rng.choice(['unset', 'set']), home_mode='root', uid=1000)
     steps = L['steps']
@@ -267,6 +296,11 @@ def check(sim, case, st):
                 res.append(('C04/seq/%s' % clause, 'put #%d of the same name: %s %s (exit %s) stderr %s' % (i, clause, detail, r.exit, r.errs[-300:])))
             if r.exit != 0:
                 res.append(('C04/seq/put-failed', 'put #%d of the same name failed (exit %s): %s' % (i, r.exit, r.errs[-400:])))
+            elif not probs and any(o.state != 'trashed' for o in outs):
+                res.append(('C04/seq/success-reported-but-not-trashed', 'put #%d (argv %r) exits 0 but %r is in state %s' % (
+                    i, spec['argv'], [o.named.arg for o in outs if o.state != 'trashed'][:3], [o.state for o in outs if o.state != 'trashed'][:3])))
+            if case.get('note', {}).get('state') == 'multiarg':
+                st.probes['one-put-of-several-same-named-entries'] += 1
             if all(o.state == 'trashed' for o in outs) and r.exit == 0:
                 ok += len(outs)
             if res:
